@@ -20,8 +20,8 @@ EXTENDS Props, Json, TLCExt, Known
 
 TLog == ndJsonDeserialize("trace.ndjson")
 
-VARIABLES l, ob, conf, ghs
-tvars == <<st, ev, gh, l, ob, conf, ghs>>
+VARIABLES l, ob, conf, ghs, base
+tvars == <<st, ev, gh, l, ob, conf, ghs, base>>
 
 ToSet(seq) == {seq[i] : i \in DOMAIN seq}
 
@@ -56,14 +56,24 @@ TraceInit ==
   /\ ob = TLog[1].ob
   /\ conf = TRUE
   /\ ghs = GhostInit(StateOf(TLog[1].st))
+  /\ base = StateOf(TLog[1].st)
 
 TraceNext ==
   /\ l < Len(TLog)
   /\ l' = l + 1
   /\ LET ln == TLog[l + 1]
-         post == StateOf(ln.st)
+         \* a probe line logs only the tables that differ from the main state `base`;
+         \* a restore line logs no state: the main state comes back
+         post == IF ln.k = "restore" THEN base
+                 ELSE IF ln.k = "probe"
+                 THEN [f \in DOMAIN base |->
+                         IF f \in DOMAIN ln.d
+                         THEN (IF f \in SetFields THEN ToSet(ln.d[f]) ELSE ln.d[f])
+                         ELSE base[f]]
+                 ELSE StateOf(ln.st)
          e == EvJ(ln.ev)
      IN /\ st' = post
+        /\ base' = IF ln.k \in {"probe", "restore"} THEN base ELSE post
         /\ ev' = e
         /\ ob' = ln.ob
         /\ IF ln.k = "init"
